@@ -603,6 +603,18 @@ FWD_PROBES = [
     ("let r = 5;", {"r": 5, "fin": 3}), ("fn w()->int{ f(1) }", {"fin": 3}), ("fn w()->int{ let l = ()->{ f(1) }; l() }", {"fin": 3}),
     ("fn w()->int{ fn v()->int{ f(1) } v() } let r = 7;", {"r": 7, "fin": 3}), ("forward fn h(x: int)->int;\nfn w()->int{ h(1) + f(1) }\nfn h(x: int)->int{ x + 10 }", {"fin": 3}),
 ]
+# systematic part: every way of using the dependent function (or the forward function itself) x every way of wrapping the use
+_USES = [("call", "{F}(1)"), ("value_then_call", "[{F}][0](1)"), ("value_through_map", "[1].map({F}).to_array()[0]"), ("value_alias", "(({F}))(1)")]
+_WRAPS = [("direct", "let r = {U};"), ("named_fn", "fn w_()->int{{ {U} }}\nlet r = w_();"), ("lambda", "let l_ = ()->{{ {U} }};\nlet r = l_();"),
+          ("nested_fn", "fn w_()->int{{ fn v_()->int{{ {U} }} v_() }}\nlet r = w_();"), ("fn_returning_lambda", "fn w_()->()->(int){{ ()->{{ {U} }} }}\nlet r = w_()();"),
+          ("getter", "fn w_()->(int)->(int){{ {F} }}\nlet r = w_()(1);"), ("lambda_getter", "let l_ = ()->{{ {F} }};\nlet r = l_()(1);"),
+          ("local_alias_in_fn", "fn w_()->int{{ let k_ = {F}; k_(1) }}\nlet r = w_();"), ("default_value", "fn w_(x: int ?= {U})->int{{ x }}\nlet r = w_();")]
+for _fn in ("f", "g"):
+    for _un, _u in _USES:
+        for _wn, _w in _WRAPS:
+            if "{U}" not in _w and _un != "call":
+                continue
+            FWD_PROBES.append((_w.format(U=_u.format(F=_fn), F=_fn), "reject"))
 FWD_AFTER = [  # placed after the implementation: must be accepted with this value of r
     ("let r = f(3);", 7), ("let r = [1].map(f).to_array()[0];", 3), ("let k2 = f; let r = k2(1);", 3), ("let r = (()->{ f(1) })();", 3),
     ("let r = partial(f, 1)();", 3), ("fn w()->()->(int){ ()->{ f(1) } } let r = w()();", 3), ("fn w(x: int ?= f(1))->int{ x } let r = w();", 3),
